@@ -1,7 +1,8 @@
 import Uhppote.Model.Events
 import Uhppote.Gen.Messages
 import Uhppote.Props.C04
-import Uhppote.Props.C03
+import Uhppote.Gen.Driver
+import Uhppote.Proofs.Buffers
 import Uhppote.Props.C02
 /-! # C11 — discovery returns exactly the controllers that answered, despite network noise (partial)
 
@@ -71,11 +72,11 @@ theorem C11_no_panic (L : Layout) (h : Gen.Messages.all.lookup "GetDeviceRespons
   C04.C04_unmarshal_total _ L h d
 
 /-- T5 obligation: the receive buffer of `Broadcast` is larger than a message, so an over-long datagram is seen as over-long and hence ignored, never a phantom entry
-    (`C11_wrong_length_ignored` applied to what the buffer holds, `C03.C03_length_visible`) -/
+    (`C11_wrong_length_ignored` applied to what the buffer holds, `Proofs.Buffers.length_visible`) -/
 theorem C11_receive_buffer : (Gen.Driver.bufSizes.lookup "Broadcast").map (fun n => decide (64 < n)) = some true := by decide
 
 theorem C11_overlong_seen (n : Nat) (h : 64 < n) (d : Bytes) (hd : d.length ≠ 64) : (received n d).length ≠ 64 :=
-  fun hc => hd ((C03.C03_length_visible n h 0 d).1.1 hc)
+  fun hc => hd ((Proofs.Buffers.length_visible n h 0 d).1.1 hc)
 
 /-- **each entry is the protocol decoding of its reply**: a discovery entry carries the fields (all but the function
     code) of a reply struct that lies in the protocol's decoding relation for that datagram -/
